@@ -12,14 +12,18 @@ def specs(rng):
             "h:%s:%s" % (hx(rbytes(rng, 32)), hx(rbytes(rng, 16)))]
 
 
-def chan(rng, depth=None, wild=False):
+# level names that coincide with names the broker reserves for itself: ordinary levels on a client's channel
+ODD_WORDS = [b"presence", b"a", b"emitter", b"link", b"stats2", b"keygen"]
+
+
+def chan(rng, depth=None, wild=False, words=None):
     n = depth or rng.choice([1, 2, 2, 3])
     parts = []
     for _ in range(n):
         if wild and rng.randrange(4) == 0:
             parts.append(b"+")
         else:
-            parts.append(rng.choice(WORDS))
+            parts.append(rng.choice(words or WORDS))
     return b"/".join(parts) + b"/"
 
 
